@@ -278,6 +278,8 @@ def e_vy(e):
         return f"convert({e_vy(e.a)}, {ty_vy(e.ty)})"
     if k == "sender":
         return "msg.sender"
+    if k == "balance":
+        return "self.balance"
     if k == "value":
         return "msg.value"
     if k == "list":
@@ -347,6 +349,10 @@ def s_vy(s, ind, out):
         out.append(pad + e_vy(s.e))
     elif k == "append":
         out.append(f"{pad}{base_vy(s.base)}{path_vy(s.path)}.append({e_vy(s.e)})")
+    elif k == "credit":
+        out.append(pad + "pass")          # entry of a payable function: the EVM credits msg.value before the body runs
+    elif k == "send":
+        out.append(f"{pad}send({SEND_TO}, {e_vy(s.e)})")
     elif k == "extstmt":
         from vlib.c01_exthelper import HELPER_ADDR
         from eth_utils import to_checksum_address
@@ -411,6 +417,10 @@ def e_coq(e):
         return f"(EConv {ty_coq(e.ty)} {e_coq(e.a)})"
     if k == "sender":
         return "ESender"
+    if k == "balance":
+        # the contract's balance is a reserved cell of the reference program's state (hidden storage variable #hid):
+        # credited with msg.value on entry of a payable function (S "credit"), debited by send (S "send")
+        return f"(ESelf {e.hid})"
     if k == "value":
         return "EValue"
     if k == "list":
@@ -480,6 +490,10 @@ def s_coq(s):
         return f"(SExpr {e_coq(s.e)})"
     if k == "append":
         return f"(SAppend ({base_coq(s.base)}) {path_coq(s.path)} {s.cap} {e_coq(s.e)})"
+    if k == "credit":
+        return f"(SAug Add (TInt 256 false) (BSto {s.hid}) [] EValue)"
+    if k == "send":        # to an account without code: succeeds iff the balance suffices (send reverts otherwise)
+        return f"(SAug Sub (TInt 256 false) (BSto {s.hid}) [] {e_coq(s.e)})"
     if k == "extstmt":
         from vlib.c01_exthelper import CONTRACT_ADDR
         if s.fn == "store":    # helper.stored := x ; helper logs Called(msg.sender = this contract, x)
@@ -494,6 +508,8 @@ def s_coq(s):
 def block_coq(b):
     return "[" + "; ".join(s_coq(s) for s in b) + "]"
 
+
+SEND_TO = "0x" + "44" * 20        # recipient of every generated `send`: an account without code
 
 # ------------------------------------------------------------------ programs
 class Fun:
